@@ -185,3 +185,50 @@ fn threaded_operations_around_close_always_resolve() {
     for f in &fails { println!("BOUNDED-FAIL threaded_operations_around_close_always_resolve {}", f); }
     assert!(fails.is_empty());
 }
+
+/// C11/C12 for the threaded event loop: huge configured durations (connect timeout, reconnect periods) must not kill the client
+/// thread. Observed from outside: with a huge connect timeout the connection is still made; with huge reconnect periods the client
+/// still obeys a stop request while it waits to reconnect.
+#[test]
+fn threaded_driver_survives_extreme_durations() {
+    let mut cases = 0u64; let mut fails: Vec<String> = Vec::new();
+    for t in [Duration::MAX, Duration::from_secs(u64::MAX), Duration::from_secs(1 << 62)] {
+        // (a) connect timeout
+        cases += 1;
+        let r: Result<(), String> = (|| {
+            let conns: Arc<Mutex<Vec<Arc<Mutex<Conn>>>>> = Arc::new(Mutex::new(Vec::new()));
+            let fc = conns.clone();
+            let factory: ThreadedConnectionFactory<Stream> = Arc::new(move || { let c = Arc::new(Mutex::new(Conn::default())); fc.lock().unwrap().push(c.clone()); Ok(Stream { c }) });
+            let mut ob = MqttClientOptions::builder();
+            ob.with_connect_timeout(t);
+            let client = new_threaded_client(ob.build(), ConnectOptions::builder().with_client_id("verif-extreme").build(), ThreadedOptions::builder().build(), factory);
+            client.start(None).map_err(|e| format!("start {:?}", e))?;
+            let res = wait_for("a CONNECT on the wire", || conns.lock().unwrap().first().map(|c| !c.lock().unwrap().written.is_empty()).unwrap_or(false));
+            let _ = client.close();
+            res
+        })();
+        if let Err(e) = r { fails.push(format!("F-DURATION-OVERFLOW connect_timeout={:?}: {} (the client thread panicked on Instant + Duration)", t, e)); }
+        // (b) reconnect periods
+        cases += 1;
+        let r: Result<(), String> = (|| {
+            let factory: ThreadedConnectionFactory<Stream> = Arc::new(move || Err(crate::error::GneissError::new_connection_establishment_failure("verif: transport refuses")));
+            let mut ob = MqttClientOptions::builder();
+            ob.with_reconnect_period_jitter(ExponentialBackoffJitterType::None).with_base_reconnect_period(t).with_max_reconnect_period(t);
+            let client = new_threaded_client(ob.build(), ConnectOptions::builder().with_client_id("verif-extreme").build(), ThreadedOptions::builder().build(), factory);
+            let evs: Arc<Mutex<Vec<u8>>> = Arc::new(Mutex::new(Vec::new()));
+            let e2 = evs.clone();
+            let _h = client.add_event_listener(Arc::new(move |e: Arc<ClientEvent>| { let k = match &*e { ClientEvent::ConnectionFailure(_) => 1u8, ClientEvent::Stopped(_) => 2u8, _ => 0u8 }; e2.lock().unwrap().push(k); })).map_err(|e| format!("listener {:?}", e))?;
+            client.start(None).map_err(|e| format!("start {:?}", e))?;
+            wait_for("the connection failure", || evs.lock().unwrap().contains(&1))?;
+            std::thread::sleep(Duration::from_millis(30));
+            client.stop(None).map_err(|e| format!("stop {:?}", e))?;
+            let res = wait_for("Stopped after a stop request during the reconnect wait", || evs.lock().unwrap().contains(&2));
+            let _ = client.close();
+            res
+        })();
+        if let Err(e) = r { fails.push(format!("F-DURATION-OVERFLOW reconnect_period={:?}: {} (the client thread panicked on Instant + Duration)", t, e)); }
+    }
+    println!("BOUNDED threaded_driver_survives_extreme_durations cases={} bound=connect timeout / reconnect periods in {{Duration::MAX, u64::MAX s, 2^62 s}}; real threaded client", cases);
+    for f in &fails { println!("BOUNDED-FAIL threaded_driver_survives_extreme_durations {}", f); }
+    assert!(fails.is_empty());
+}
